@@ -422,6 +422,9 @@ template <bool Sparse> static void amdpCase(Rng & rng, long idx) {
     for (size_t a = 0; a < A; ++a) for (size_t s = 0; s < S1; ++s) for (size_t s1 = 0; s1 < S1; ++s1) l << (double)mdp.getTransitionFunction(a).coeff(s, s1);
     for (size_t s = 0; s < S1; ++s) for (size_t a = 0; a < A; ++a) l << (double)mdp.getRewardFunction().coeff(s, a);
     l << pt.discount;
+    // the discretizer itself: every sampled belief with the bucket it is sent to (S, buckets, then belief + index)
+    l << "|" << S << buckets << (size_t)beliefs.size();
+    for (const auto & b : beliefs) { for (size_t x = 0; x < S; ++x) l << (double)b[x]; l << disc(b); }
     l.emit();
     stat(Sparse ? "amdp:sparse" : "amdp:dense");
 }
